@@ -107,6 +107,10 @@ def gen_config(rng):
     if kind != "Detrended" and rng.random() < 0.2:
         kr["normalizer"] = "YeoJohnson"
     ncond = rng.randint(2 if kind in ("Simple", "Ordinary", "Detrended") else dim + 2, 6)
+    if kind == "ExtDrift" and not latlon and dim > 1 and rng.random() < 0.35:
+        # general Krige with functional AND external drift terms at once
+        kr["ext_plus_linear"] = True
+        ncond = max(ncond, dim + 3)
     pos, val = gen_cond(rng, dim, ncond)
     if latlon:
         pos = [[round(v * 20.0, 2) for v in pos[0]], [round(v * 50.0, 2) for v in pos[1]]]
@@ -179,7 +183,12 @@ def build(spec, ctx=None, fns=None):
     elif kind == "ExtDrift":
         ext = spec["cond"].get("ext")
         ext = ext_fn(cpos) if ext is None else np.array(ext, dtype=np.double)
-        k = gs.krige.ExtDrift(model, cpos, cval, ext, normalizer=norm, trend=trend, **common)
+        if kr.get("ext_plus_linear"):
+            k = gs.krige.Krige(model, cpos, cval, drift_functions="linear", ext_drift=ext,
+                               unbiased=True, normalizer=norm, trend=trend, **common)
+        else:
+            k = gs.krige.ExtDrift(model, cpos, cval, ext, normalizer=norm, trend=trend,
+                                  **common)
     elif kind == "Detrended":
         k = gs.krige.Detrended(model, cpos, cval, trend, **common)
     else:
@@ -258,6 +267,8 @@ class Machine:
                         "val": [round(rng.uniform(-2, 3), 3) for _ in range(n)]}
             if what == "pos_values":
                 lo = 2 if kr["kind"] in ("Simple", "Ordinary", "Detrended") else self.dim + 2
+                if kr.get("ext_plus_linear"):
+                    lo = min(6, self.dim + 3)
                 pos, val = gen_cond(rng, self.dim, rng.randint(lo, 6))
                 if self.latlon:
                     pos = [[round(v * 20.0, 2) for v in pos[0]],
@@ -279,8 +290,11 @@ class Machine:
             if self.dim > 1 and not self.latlon:
                 params += ["anis", "angles"]
             params += ["opt:" + o for o in sorted(m["opt"])]
+            params.append("rescale")
             p = rng.choice(params)
-            if p == "var":
+            if p == "rescale":
+                v = rng.choice([x for x in (0.5, 1.0, 2.0, 3.0) if x != m.get("rescale")])
+            elif p == "var":
                 v = rng.choice(cm.VAR_GRID)
             elif p == "len_scale":
                 v = rng.choice(cm.LEN_GRID)
